@@ -547,6 +547,13 @@ pub fn record(args: &Args) -> i32 {
         }
     }
     builts.push(build_file(&json!([wrap("zlib", 7), {"c":"junk","n":65536 - 4}]), &big, &small, &mut rng));
+    // files that are larger than their expanded form: noise that went through a compressor
+    for level in [1, 9] {
+        let noise: Vec<u8> = (0..250_000).map(|_| rng.below(256) as u8).collect();
+        let mut f = gen::junk(&mut rng, 20);
+        f.extend_from_slice(&gen::wrap_zlib(&gen::zlib_raw(&noise, level, 0, 15, 8), &noise, 1));
+        builts.push(Built { bytes: f, expect: None, plains: vec![noise], desc: json!("noise through zlib") });
+    }
     builts.push(build_file(&json!([wrap("gzip", 7), {"c":"junk","n":65536 - 8}]), &big, &small, &mut rng));
     if args.get("samples").is_some() {
         for name in ["samplezip.zip", "sample1.bin.gz", "treegdi.png", "samplepptx.pptx", "skiplengthcrash.bin", "starcontrol.samplesave"] {
